@@ -271,7 +271,14 @@ fn gen_case(rng: &mut Rng) -> Case {
                 }
                 1 => {
                     uses.insert("repeat count");
-                    body += &format!("    let r{k} = [3u8; {}];\n    for e in r{k} {{ acc = acc + (e as u64); }}\n", sd.name);
+                    // (the element is evaluated once whatever the count is, 0 included: it can fail)
+                    let elem = if g.rng.bool() {
+                        uses.insert("repeat count with an element that can fail");
+                        "7u8 / (s as u8)"
+                    } else {
+                        "3u8"
+                    };
+                    body += &format!("    let r{k} = [{elem}; {}];\n    for e in r{k} {{ acc = acc + (e as u64); }}\n", sd.name);
                 }
                 2 => {
                     uses.insert("usize const as operand");
@@ -349,7 +356,14 @@ fn gen_case(rng: &mut Rng) -> Case {
     for d in &defs {
         with_consts += &format!("const {}: {} = {};\n", d.name, d.ty.name(), show_ce(&d.expr, d.ty, &exts, &defs));
     }
+    // (a third of the inline sizes is written as the plain number instead: const-sized rows inside
+    // an array of fixed size)
+    let plain_outer_size = g.rng.chance(1, 3);
+    if plain_outer_size && inline_size.is_some() && fn_text.contains("]; INLINESIZE]") {
+        uses.insert("const-sized rows inside an array of fixed size");
+    }
     with_consts += &match &inline_size {
+        Some((_, target)) if plain_outer_size => fn_text.replace("INLINESIZE", &target.to_string()),
         Some((text, _)) => fn_text.replace("INLINESIZE", &format!("const {{ {text} }}")),
         None => fn_text.clone(),
     };
